@@ -78,7 +78,9 @@ class C12:
         nk = rng.randint(2, 3)
         cases = {str(k): rng.choice(BRANCHES) for k in range(1, nk + 1)}
         default = rng.choice((None, None, "AddOne", "Accum"))
-        key_values = list(range(1, nk + 1)) + ([9] if (default or rng.random() < 0.08) else [])
+        # with a default branch: two different keys without a case of their own (both select the default, a change between
+        # them is still a key change: fresh instance)
+        key_values = list(range(1, nk + 1)) + ([9, 8, 9, 8] if default else ([9] if rng.random() < 0.08 else []))
         kw = ho.gen_ts_writer(rng, 1, end, values=key_values, dense=rng.random() < 0.4)
         xw = ho.gen_ts_writer(rng, 2, end, dense=rng.random() < 0.5)
         reload_ = 1 if rng.random() < 0.2 else 0
